@@ -406,12 +406,68 @@ def emit(kernels):
     return s
 
 
+def wrapper_shape(text, fname, vec_bytes, size, prefix):
+    """The reduction around a packed kernel in distance_32 / distance_64: shuffle immediates (in order), extracted lanes,
+    and how many vector chunks are loaded.  Anything else in the function body is checked against the expected vocabulary."""
+    m = re.search(r"fn\s+" + fname + r"\s*\([^)]*\)\s*->\s*u32\s*\{", text)
+    if not m:
+        raise TranslateError("wrapper %s not found" % fname)
+    i = m.end()
+    depth, j = 1, i
+    while j < len(text) and depth:
+        depth += {"{": 1, "}": -1}.get(text[j], 0)
+        j += 1
+    body = text[i:j - 1]
+    imms = [int(x.replace("_", ""), 0) for x in re.findall(prefix + r"_shuffle_epi32::<\s*(0b[01_]+|0x[0-9a-fA-F_]+|\d+)\s*>", body)]
+    extracts = [int(x) for x in re.findall(prefix + r"_extract_epi32::<\s*(\d+)\s*>", body)]
+    loads = len(re.findall(prefix + r"_loadu_si(?:128|256)\s*\(", body))
+    loop = re.search(r"for\s+i\s+in\s+0\.\.(\d+)", body)
+    chunks = (int(loop.group(1)) if loop else loads // 2)
+    if loop and loads != 2:
+        raise TranslateError("%s: a loop with %d loads per iteration" % (fname, loads))
+    if chunks * vec_bytes != size:
+        raise TranslateError("%s: %d chunks of %d bytes do not cover a %d-byte body" % (fname, chunks, vec_bytes, size))
+    offs = sorted(set(int(x) for x in re.findall(r"p[xy]\.add\((\d+)\)", body)))
+    if not loop and offs and offs != list(range(1, chunks)):
+        raise TranslateError("%s: unexpected load offsets %r" % (fname, offs))
+    known = set(re.findall(r"\b(_mm(?:256)?_[a-z0-9_]+)\b", body))
+    allowed = {prefix + x for x in ("_loadu_si128", "_loadu_si256", "_shuffle_epi32", "_add_epi32", "_add_epi16", "_extract_epi32",
+                                    "_cvtsi128_si32", "_set1_epi32", "_set1_epi16")}
+    if not known <= allowed:
+        raise TranslateError("%s: unmodelled intrinsics %r in the reduction" % (fname, sorted(known - allowed)))
+    return {"imms": imms, "extracts": extracts, "chunks": chunks}
+
+
+WRAPPERS = [("sse2", "compare/dist_body/x86_sse2.rs", 16, "_mm"), ("sse41", "compare/dist_body/x86_sse4_1.rs", 16, "_mm"),
+            ("avx2", "compare/dist_body/x86_avx2.rs", 32, "_mm256")]
+
+
+def emit_wrappers():
+    s = "\n(* horizontal reductions of distance_32 / distance_64 around the packed kernels: shuffle_epi32 immediates in source order,\n   extracted lanes, number of vector chunks *)\n"
+    info = {}
+    for name, rel, vb, prefix in WRAPPERS:
+        text = strip_comments(read(rel))
+        w32 = wrapper_shape(text, "distance_32", vb, 32, prefix)
+        w64 = wrapper_shape(text, "distance_64", vb, 64, prefix)
+        per = lambda w: w["imms"][:len(w["imms"]) // max(1, (w["chunks"] if name == "avx2" else 1))]
+        if per(w32) != per(w64) or sorted(set(w32["extracts"])) != sorted(set(w64["extracts"])):
+            raise TranslateError("%s: distance_32 and distance_64 use different reductions" % name)
+        if name == "avx2" and (w64["imms"] != per(w64) * w64["chunks"]):
+            raise TranslateError("avx2: the per-chunk reductions of distance_64 differ")
+        s += "Definition %s_reduce : list N := (%s nil).\n" % (name, "".join("%d :: " % x for x in per(w32)))
+        s += "Definition %s_extract : list nat := (%s nil)%%nat.\n" % (name, "".join("%d :: " % x for x in sorted(set(w32["extracts"]))))
+        s += "Definition %s_chunks32 : nat := %d.\nDefinition %s_chunks64 : nat := %d.\n" % (name, w32["chunks"], name, w64["chunks"])
+        info[name] = {"reduce": per(w32), "extract": sorted(set(w32["extracts"]))}
+    return s, info
+
+
 def run(gen_dir, write_if_changed):
     kernels = []
     for name, rel, fn, width, gran in KERNELS:
         text = strip_comments(read(rel))
         kernels.append((name, translate_kernel(text, fn, width, gran)))
     changed = []
-    if write_if_changed(os.path.join(gen_dir, "Kernels.v"), emit(kernels)):
+    wtext, winfo = emit_wrappers()
+    if write_if_changed(os.path.join(gen_dir, "Kernels.v"), emit(kernels) + wtext):
         changed.append("Kernels.v")
     return {"changed": changed, "kernels": {n: {"lane_instrs": len(k.instrs), "epilogue": k.epilogue} for n, k in kernels}}
